@@ -14,7 +14,8 @@
 (* value is EXACT.  A 64-bit result exists iff the exact value is below 2^64.       *)
 (* Decided clause D-sat: when the exact threshold does not fit 64 bits, the only    *)
 (* 64-bit answer accepted from CalcThresholdBalance is 2^64-1 (no representable      *)
-(* balance other than 2^64-1 itself then passes a balance >= threshold test).        *)
+(* balance other than 2^64-1 itself then passes a balance >= threshold test);        *)
+(* BelowThreshold compares against that saturated value.                            *)
 EXTENDS BigNat, FiniteSetsExt
 
 BS == 100
@@ -30,7 +31,8 @@ Fits64(x) == \A i \in 9..Len(x) : x[i] = 0
 Threshold64(items, oct, gratis) == LET x == ThresholdX(items, oct, gratis) IN IF Fits64(x) THEN Sub(x, 1, 8) ELSE UMax
 AcctThresholdX(a) == ThresholdX(a.items, a.oct, a.gratis)
 \* balance b (8 bytes) is below the exact threshold x (W bytes)
-BelowThreshold(b, x) == LtU(T10(b), x)
+\* (D-sat: against a threshold of 2^64 or more only the balance 2^64-1 counts as covering it)
+BelowThreshold(b, x) == LtU(T10(b), IF Fits64(x) THEN x ELSE T10(UMax))
 
 \* ---- derived footprint ----
 RECURSIVE SumU8(_)
